@@ -47,6 +47,13 @@ CHECKS.update({
    text="Seeded operation sequences with payload sizes from empty to one block, all record kinds, read-ahead 1-6; after every quiescent read the records must equal the model exactly (order, strictly increasing LSNs, tid, kind, undo, redo), and at EVERY prefix of the recorded file mutations the reopened log must return a prefix of what was appended that covers every acknowledged force."),
 })
 
+CHECKS.update({
+ "C20": dict(engine="E5-wiresim", level="exploration", ref="4 (C20), 2.3 (E5)",
+   note="The TCP socket is replaced by a simulated byte stream implementing Read/Write whose every call draws its behaviour (fragment size, short write, EINTR, EOF) from the seed; framing, encoding and decoding are the real axmosdb::tcp code. The worker runs under a 3 GiB address-space limit so that an unbounded allocation kills the worker, which the supervisor reports with the scenario as replay. WouldBlock is not injected (the server uses blocking sockets). Result sets with zero columns but non-zero rows are not generated (they carry no bytes per row and are rejected as malformed since fix f81eb12).",
+   technique="deterministic simulation of the byte stream: seeded fragmentation / short writes / EINTR / EOF-at-any-offset / garbage and header-biased mutation over the real framing and codec, round-trip equality oracle, bounded-allocation oracle via rlimit",
+   text="Seeded stream scenarios: every Request/Response variant with generated field values (empty, non-ASCII, multi-megabyte strings, result sets 0..400 rows x 0..8 columns) must be received exactly as sent under fragmentation, short writes and EINTR with nothing left over in the stream; truncated, random, oversize-prefixed and mutated frames must yield a protocol error (or a well-formed message), never a panic, hang or unbounded allocation."),
+})
+
 NOT_APPLICABLE = {
  "C05": "pure function of (table contents, query text): no schedule, crash point, clock or interleaving enters it; needs differential/property-based testing, not simulation",
  "C18": "pure function of (stored bytes, schema, snapshot, horizon); the property asks for bounded exhaustive enumeration of a codec, not simulation",
@@ -84,6 +91,7 @@ def main():
             "add_only": True,
         },
         "engines": [
+            {"name": "E5-wiresim", "path": "/verif/sim/src/wiresim.rs", "serves_properties": ["C20"], "kind_free_text": "simulated byte stream (fragmentation, short writes, EINTR, EOF, garbage) under the real framing and codec"},
             {"name": "E3a-walsim", "path": "/verif/sim/src/walsim.rs", "serves_properties": ["C17"], "kind_free_text": "storage-level simulator of the write-ahead log over the verif facade, with crash at every I/O prefix"},
             {"name": "E2-crashsim", "path": "/verif/sim/src/crashsim.rs", "serves_properties": [p for p, c in CHECKS.items() if c["engine"] == "E2-crashsim"], "kind_free_text": "E1 plus the I/O tap: every prefix of a history's file mutations is materialised as a disk image, opened with the real recovery and judged against the acknowledged model state; nested for recovery's own I/O"},
             {"name": "E1-sqlsim", "path": "/verif/sim/src/sqlsim.rs", "serves_properties": [p for p, c in CHECKS.items() if c["engine"] == "E1-sqlsim"], "kind_free_text": "whole-database history simulator: seeded event sequences over sessions / autocommit / batches / vacuum / checkpoint / reopen, reference SI model, result and state oracles"},
